@@ -927,6 +927,10 @@ func (e *Env) call(x *ECall) TV {
 	case x.Fn == "sha256":
 		Declare("uf:native_crypto_Sha256", "(declare-fun native_crypto_Sha256 (String) NB)")
 		return TV{T: sx.App("native_crypto_Sha256", toBytes(e.Tr(x.Args[0]))), Ty: Type{K: KNB}}
+	case x.Fn == "sha256sum":
+		// crypto/sha256.Sum256 of the Go standard library (dialect go64): the same uninterpreted function the executor uses
+		Declare("uf:crypto_sha256_Sum256", "(declare-fun crypto_sha256_Sum256 (String) NB)")
+		return TV{T: sx.App("crypto_sha256_Sum256", toBytes(e.Tr(x.Args[0]))), Ty: Type{K: KNB}}
 	case x.Fn == "stdacct":
 		a := e.Tr(x.Args[0])
 		Declare("uf:contract_CreateStandardAccount", "(declare-fun contract_CreateStandardAccount (String) NB)")
